@@ -408,8 +408,13 @@ def main():
     distinct = set()
     failures = []
     samples = []
+    # non-finite totals (a division by zero upstream): only for the running reductions, whose state is additive.  Windowed
+    # aggregations subtract what leaves the window; inf - inf is NaN in floating point, which is outside the real-number reading of
+    # the properties (DESIGN section 1) and is not enumerated.
+    INF_OPS = {'x.sum', 'x.count', 'x.mean', 'frame[x,y].sum', 'frame[x,y].count', 'groupby(\'k\').x.sum', 'groupby(\'k\').x.count'}
+    inf_tables = [([float('inf'), 1.0, 2.0], ['a', 'b', 'a']), ([1.0, float('inf'), 0.0, 2.5], ['a', 'a', 'b', 'a'])]
     for op in ops:
-        for xs, ks in tables:
+        for xs, ks in tables + (inf_tables if op['name'] in INF_OPS else []):
             for sz in splits(len(xs), maxbatch):
                 for sizes in with_empties(sz, maxbatch):
                     cases += 1
